@@ -1164,9 +1164,17 @@ func TestKillPrefixes(t *testing.T) {
 				}
 				steps := append(append([]KStep(nil), prefix...), run("A", "B"), KStep{Op: "truncate", CutAbs: k})
 				steps = append(steps, cont...)
-				steps = append(steps, run("A", "B"))
 				s.Class("enumerated_cache_prefix")
-				one(KillCase{Tasks: prog, Init: init, Steps: steps})
+				one(KillCase{Tasks: prog, Init: init, Steps: append(append([]KStep(nil), steps...), run("A", "B"))})
+				if ci == 2 || ev.Thorough() {
+					// the same with the results asked for as JSON / with output silenced
+					for _, fl := range [][]string{{"--json"}, {"--quiet"}} {
+						final := run("A", "B")
+						final.Flags = fl
+						s.Class("enumerated_cache_prefix_reporting_flags")
+						one(KillCase{Tasks: prog, Init: init, Steps: append(append([]KStep(nil), steps...), final)})
+					}
+				}
 			}
 		}
 	}
